@@ -297,10 +297,58 @@ def recording(built, angles, log):
         VQABlock.get_unitary_derivative = orig
 
 
+CONTAINERS = ("list", "tuple", "array", "int_list", "int_tuple", "int_array", "int32_array", "float32",
+              "mixed", "np_scalars", "np_int_scalars")
+
+
+def make_container(angles, kind):
+    """the same numeric values in every container / dtype a caller may legitimately pass"""
+    if kind == "list":
+        return [float(a) for a in angles]
+    if kind == "tuple":
+        return tuple(float(a) for a in angles)
+    if kind == "array":
+        return np.array(angles, dtype=float)
+    if kind == "int_list":
+        return [int(a) for a in angles]
+    if kind == "int_tuple":
+        return tuple(int(a) for a in angles)
+    if kind == "int_array":
+        return np.array([int(a) for a in angles], dtype=np.int64)
+    if kind == "int32_array":
+        return np.array([int(a) for a in angles], dtype=np.int32)
+    if kind == "float32":
+        return np.array(angles, dtype=np.float32)
+    if kind == "mixed":
+        return [(int(a) if j % 3 == 0 else (np.float64(a) if j % 3 == 1 else float(a))) for j, a in enumerate(angles)]
+    if kind == "np_scalars":
+        return [np.float64(a) for a in angles]
+    if kind == "np_int_scalars":
+        return [np.int64(int(a)) for a in angles]
+    raise ValueError(kind)
+
+
+def gen_container_case(rng, k):
+    case = gen_case(rng, kinds=("ham", "ham", "ph", "ph", "unit", "native"), maxblocks=3, max_free=8)
+    n = len(case["angles"])
+    kind = CONTAINERS[k % len(CONTAINERS)]
+    if kind.startswith("int") or kind in ("mixed", "np_int_scalars"):
+        case["angles"] = [float(rng.randint(-6, 6)) for _ in range(n)]      # integer-valued
+    elif kind == "float32":
+        case["angles"] = [rng.randint(-400, 400) / 64.0 for _ in range(n)]  # exactly representable
+    case["container"] = kind
+    if rng.random() < 0.6:
+        case["idxs"] = None
+    return case
+
+
 def run_real(built, case):
     vqa = built.vqa
     angles = list(case["angles"])
-    arg = np.array(angles, dtype=float) if case.get("as_array") else list(angles)
+    if case.get("container"):
+        arg = make_container(angles, case["container"])
+    else:
+        arg = np.array(angles, dtype=float) if case.get("as_array") else list(angles)
     names = {}
     for j, a in enumerate(angles):
         names.setdefault(float(a), j)
@@ -734,7 +782,7 @@ def corpus_cases():
 def structure_key(case):
     return json.dumps([case["nq"], case["layers"], [(b["kind"], b.get("m"), bool(b.get("initial")), b.get("gate")) for b in case["blocks"]],
                        case.get("idxs"), len(case["angles"]), [a == 0 for a in case["angles"]],
-                       len(set(case["angles"])) < len(case["angles"])])
+                       len(set(case["angles"])) < len(case["angles"]), case.get("container")])
 
 
 # ------------------------------------------------------------------------------------------------
@@ -763,6 +811,15 @@ def gen_ops(rng, n, first_angles=None):
             hist.append(dict(op="cost", arr=a))
         else:
             hist.append(dict(op="jac", arr=a))
+        if rng.random() < 0.35:
+            r = rng.random()
+            if r < 0.55:
+                hist.append(dict(op="rej_add_block", arr=a, which=rng.randrange(8), seed=rng.randrange(1, 10 ** 6)))
+            elif r < 0.8:
+                hist.append(dict(op="rej_short", arr=a, call=rng.choice(["cost", "jac"])))
+            else:
+                hist.append(dict(op="rej_idx", arr=a))
+            hist.append(dict(op=rng.choice(["cost", "jac"]), arr=a))
     # always end with: in-place step on array 0, then the gradient again on the same array
     hist.append(dict(op=rng.choice(["sub", "sub", "set", "scale"]), arr=0,
                      step=[round(rng.uniform(-0.6, 0.6), 6) for _ in range(n)],
@@ -861,6 +918,28 @@ def run_history(built, case):
             a[:] = np.array(st["values"], dtype=float)
         elif op == "scale":
             a *= st["c"]
+        elif op in ("rej_add_block", "rej_short", "rej_idx"):
+            # a call that must be REJECTED; the harness catches the exception like a caller would.
+            # Model: a rejected call is a no-op, every later call is compared with the unchanged model.
+            raised = None
+            try:
+                if op == "rej_add_block":
+                    import qutip
+                    from qutip_qip.vqa import VQABlock
+                    cands = [b for b in built.blocks if not b.is_native_gate] or built.blocks
+                    name = cands[st["which"] % len(cands)].name
+                    dims = [[2] * built.nq, [2] * built.nq]
+                    vqa.add_block(VQABlock(qutip.Qobj(_herm(st["seed"], built.nq), dims=dims), name=name))
+                elif op == "rej_short":
+                    if st.get("call") == "cost":
+                        vqa.evaluate_parameters(a[:-1].copy())
+                    else:
+                        vqa.compute_jac(a[:-1].copy())
+                else:
+                    vqa.compute_jac(a, 7)            # indices_to_compute must be a collection
+            except Exception as e:
+                raised = type(e).__name__
+            calls.append(dict(op="rejected", what=op, raised=raised, values=[float(x) for x in a]))
         elif op == "cost":
             vals = [float(x) for x in a]
             try:
@@ -899,13 +978,18 @@ def check_history(case, mvals=None):
         mval = mvals[k] if mvals is not None else None
         if mval is not None:
             m_eval, m_jac = opt(mval[3]), opt(mval[4])
-        after = " after earlier calls / in-place updates of the parameter array" + \
+        after = " after earlier calls / in-place updates of the parameter array / rejected calls" + \
                 (" / reassignment of cost_observable, cost_func, blocks or num_layers" if k > 0 else "")
         for c in calls:
             n = ncall
             ncall += 1
             at = dict(sc)
             at["angles"] = c["values"]
+            if c["op"] == "rejected":
+                if c["raised"] is None and fail is None and not (c["what"] == "rej_idx" and count_free(sc) == 0):
+                    fail = dict(observed=dict(call=n, stage=k, op=c["what"], raised=None), expected="an exception",
+                                what="history: an invalid call (%s) was accepted" % c["what"])
+                continue
             if c["op"] == "cost":
                 want = float(np.real(ref.vqa.evaluate_parameters(list(c["values"]))))
                 if isinstance(c["result"], str) or abs(c["result"] - want) > 1e-9 * max(1.0, abs(want)):
@@ -1165,7 +1249,11 @@ def correspond(ctx):
                      "+-2pi and repeated values. optimize_parameters is driven through layer_by_layer x use_jac x initial "
                      "(list/array/ones/random) x 1-3 layers x bounds/constraints with a probe as scipy method: for every "
                      "minimize() call the (fun, jac) it receives are compared with the model's cost / Jacobian restricted "
-                     "to that layer's free indices at frozen ++ free, with a fresh object and with finite differences of fun")
+                     "to that layer's free indices at frozen ++ free, with a fresh object and with finite differences of fun. "
+                     "Parameter vectors are also passed in every numeric container (list/tuple of ints, int64/int32/float32 "
+                     "ndarray, mixed, numpy scalars) and compared at the same float values. Histories contain REJECTED calls "
+                     "(duplicate-name add_block, short vector, non-collection indices) caught by the harness: the model treats "
+                     "a rejected call as a no-op")
     rng = ctx.rng
     cases = []
     for c in corpus_cases():
@@ -1179,6 +1267,8 @@ def correspond(ctx):
             cases.append((c, "exhaustive-subsets"))
     for _ in range(ctx.n(150, 1200)):
         cases.append((gen_boundary_case(rng), "boundary-angles"))
+    for k in range(ctx.n(110, 880)):
+        cases.append((gen_container_case(rng, k), "container-types"))
     for c in zero_sweep(rng, ctx.n(12, 80)):
         cases.append((c, "zero-at-each-position"))
     for _ in range(ctx.n(100, 800)):
@@ -1212,6 +1302,8 @@ def correspond(ctx):
         corr.tally("layers:%d" % case["layers"])
         corr.tally("qubits:%d" % case["nq"])
         corr.tally("indices:" + ("all" if case.get("idxs") is None else "subset"))
+        if case.get("container"):
+            corr.tally("container:" + case["container"])
         if any(a == 0 for a in case["angles"]):
             corr.tally("angles:contains exact 0.0")
         if len(set(case["angles"])) < len(case["angles"]):
@@ -1237,6 +1329,9 @@ def correspond(ctx):
             ops = [st["op"] for _, sc in stage_cases(case) for st in sc["history"]]
             corr.tally("history:calls", sum(1 for o in ops if o in ("jac", "cost")))
             corr.tally("history:in-place updates", sum(1 for o in ops if o in ("sub", "set", "scale")))
+            for o_ in ops:
+                if o_.startswith("rej_"):
+                    corr.tally("history:rejected call:" + o_[4:])
             for st in case.get("stages", []):
                 if st.get("mut"):
                     corr.tally("history:mutation:" + st["mut"]["op"])
@@ -1354,6 +1449,8 @@ def search(ctx, broken):
     cands += zero_sweep(rng, ctx.n(15, 60))
     for _ in range(ctx.n(80, 400)):
         cands.append(gen_boundary_case(rng))
+    for k in range(ctx.n(44, 220)):
+        cands.append(gen_container_case(rng, k))
     for _ in range(ctx.n(40, 200)):
         cands.append(gen_staged_history(rng))
     for k in range(ctx.n(32, 160)):
